@@ -30,6 +30,7 @@ func init() {
 			"degenerate geometries (0 columns/rows) are not decided",
 		},
 		Controls: []Control{
+			{Name: "Write ranges over the data as a string", File: "kernel/device/tty/vt.go", Old: "\tfor count, b := range data {\n\t\terr := t.WriteByte(b)\n", New: "\tfor count, r := range string(data) {\n\t\terr := t.WriteByte(byte(r))\n", Expect: "C17.R1"},
 			{Name: "tab stops at the right margin", File: "kernel/device/tty/vt.go", Old: "\t\t\tt.doWrite(' ', true)\n\t\t}\n\tdefault:", New: "\t\t\tt.doWrite(' ', true)\n\t\t\tif t.cursorX == 1 {\n\t\t\t\tbreak\n\t\t\t}\n\t\t}\n\tdefault:", Expect: "C17.R1"},
 			{Name: "carriage return goes to column two", File: "kernel/device/tty/vt.go", Old: "\tt.cursorX = 1\n\tt.updateDataOffset()\n}", New: "\tt.cursorX = 2\n\tt.updateDataOffset()\n}", Expect: "C17.R1"},
 			{Name: "drop updateDataOffset in cr", File: "kernel/device/tty/vt.go", Old: "\tt.cursorX = 1\n\tt.updateDataOffset()\n}", New: "\tt.cursorX = 1\n}", Expect: "C17.R3"},
